@@ -168,6 +168,72 @@ theorem C09_column_order_two {le : Cmp} (p : LAParams) (bf : Rat) (hbf : p.boxes
     have := key_lrtb_columns bf h1 b.bb a.bb h2.symm h3
     exact absurd h (not_le.mpr this)
 
+/-- **A single column of ANY number of boxes comes out top to bottom** (`_partial`: one hypothesis is left to the
+harness).  For every page, every parameter setting with `boxes_flow = bf > -1`, every heap comparison: when all text
+boxes of the result are horizontal, share their left edge and have positive height, and every group of the hierarchy
+joins two vertically SEPARATED runs of boxes (`Node.Separated`: all boxes of one member lie above all boxes of the
+other), then the output order is top to bottom - each box lies above every later one.  Proved: the whole reading-order
+argument over the hierarchy (hull of every node = hull of its leaves, the sort by `key_lrtb` of the hulls puts the
+upper run first at EVERY level, depth-first order = output order by `C08_hierarchy`).  Missing for the full statement:
+that `group_textboxes` only merges vertically adjacent runs of a column (the `isany` test defers every pair with a box
+in between, and an adjacent pair is never deferred) - the merge-order argument over the heap loop; the harness checks
+`Separated` on the implementation's group tree of every generated column (`column:separated`). -/
+theorem C09_column_order_separated_partial {le : Cmp} (p : LAParams) (bf : Rat) (hbf : p.boxes_flow = some bf)
+    (hpos : -1 < bf) (pageBB : BB) (hp : WfPage pageBB) (items : List Item) (c : Rat)
+    (hcol : ∀ b ∈ boxesOf (analyze le p pageBB items), b.vertical = false ∧ b.bb.x0 = c ∧ b.bb.y0 < b.bb.y1)
+    (hsep : ∀ gs, (analyze le p pageBB items).groups = some gs → ∀ g ∈ gs, g.Separated) :
+    (boxesOf (analyze le p pageBB items)).Pairwise (fun a b => b.bb.y1 ≤ a.bb.y0) := by
+  cases hne : (items.filterMap Item.glyph?).isEmpty with
+  | true =>
+    have hc : (analyze le p pageBB items).children = items.map Item.toChild := by simp [analyze, hne]
+    have : boxesOf (analyze le p pageBB items) = [] := by
+      simp only [boxesOf, hc, List.filterMap_map]
+      apply List.filterMap_eq_nil_iff.mpr
+      intro it _
+      cases it <;> rfl
+    rw [this]; exact List.Pairwise.nil
+  | false =>
+    have hh := C08.C08_hierarchy (le := le) p pageBB hp items hne
+    have hroot := C08.C08_single_root (le := le) p pageBB items
+    cases hg : (analyze le p pageBB items).groups with
+    | none =>
+      have := hh.1.mp hg
+      rw [hbf] at this
+      exact absurd this (by simp)
+    | some gs =>
+      obtain ⟨hleaves, hok⟩ := hh.2 gs hg
+      have hlen := hroot gs hg
+      match gs, hleaves, hlen, hok, hsep gs hg with
+      | [], hleaves, _, _, _ =>
+        simp only [List.flatMap_nil] at hleaves
+        rw [← hleaves]; exact List.Pairwise.nil
+      | [g], hleaves, _, hok, hs =>
+        simp only [List.flatMap_cons, List.flatMap_nil, List.append_nil] at hleaves
+        rw [← hleaves]
+        exact column_top_to_bottom hpos c (hok bf hbf g (by simp)) (by rw [hleaves]; exact hcol) (hs g (by simp))
+      | _ :: _ :: _, _, hlen, _, _ => simp at hlen
+
+/-- The tree-level statement behind it, for any well-formed hierarchy (any number of leaves). -/
+theorem C09_column_tree (bf : Rat) (hpos : -1 < bf) (c : Rat) (g : Node) (hok : GroupOK bf g)
+    (hcol : ∀ a ∈ g.leaves, a.vertical = false ∧ a.bb.x0 = c ∧ a.bb.y0 < a.bb.y1) (hsep : g.Separated) :
+    g.leaves.Pairwise (fun a b => b.bb.y1 ≤ a.bb.y0) :=
+  column_top_to_bottom hpos c hok hcol hsep
+
+/- non-vacuity: a column of three boxes of different widths, merged bottom pair first -/
+def exB (y : Rat) (w : Rat) : Box := ⟨0, false, [], ⟨10, y, 10 + w, y + 10⟩, 0⟩
+def exTree : Node :=
+  .grp false ((exB 200 40).bb.union ((exB 100 30).bb.union (exB 0 50).bb)) (.leaf (exB 200 40))
+    (.grp false ((exB 100 30).bb.union (exB 0 50).bb) (.leaf (exB 100 30)) (.leaf (exB 0 50)))
+
+example : GroupOK (1/2) exTree :=
+  GroupOK.grp _ _ _ _ (GroupOK.leaf _)
+    (GroupOK.grp _ _ _ _ (GroupOK.leaf _) (GroupOK.leaf _) (isUnion_union (isUnion_singleton _) _) rfl (by decide +kernel))
+    (isUnion_union (isUnion_singleton _) _) rfl (by decide +kernel)
+example : exTree.Separated := (separatedB_iff exTree).mp (by decide +kernel)
+example : (exTree.leaves.all fun a => !a.vertical && decide (a.bb.x0 = 10) && decide (a.bb.y0 < a.bb.y1)) = true := by
+  decide +kernel
+example : exTree.leaves.map (·.bb.y0) = [200, 100, 0] := by decide +kernel
+
 /-- **Reading order without the hierarchy (`boxes_flow = None`), full statement.**  For every page the
 text boxes come out sorted by the documented positional key: vertical boxes first (by descending right
 edge, then descending bottom edge), then horizontal boxes by descending bottom edge - i.e. the boxes of a
